@@ -382,6 +382,9 @@ func (w *World) VerifyFunc(fs *FuncSpec) {
 	fr.ret = func(s *State, results []Value) {
 		nret++
 		pev := x.funcEnv(fi, "post", s, entry, args, results)
+		// the reachability cover of this return uses the path condition as it is here, before the
+		// return-time hints and cuts (instances of proved lemmas and proved cuts: consequences of it)
+		coverHyps := append([]*Term(nil), s.hyps...)
 		// return-time hints
 		nCut := 0
 		saved := x.hints
@@ -482,7 +485,7 @@ func (w *World) VerifyFunc(fs *FuncSpec) {
 			x.oblige(s, "ensures", fmt.Sprintf("#%d", n), c.Text, fn.Pos(), t)
 		}
 		// reachability cover of this return
-		co := &Obligation{Name: fmt.Sprintf("%s/cover-return%s", fi.Key, s.retTag), Path: strings.Join(s.path, ""), Func: fi.Key, Kind: "cover", Hyps: append([]*Term(nil), s.hyps...), Goal: False, Cover: true, Hints: saved, Text: "return reachable"}
+		co := &Obligation{Name: fmt.Sprintf("%s/cover-return%s", fi.Key, s.retTag), Path: strings.Join(s.path, ""), Func: fi.Key, Kind: "cover", Hyps: coverHyps, Goal: False, Cover: true, Hints: saved, Text: "return reachable"}
 		w.Obls = append(w.Obls, co)
 	}
 	if len(fn.Blocks) == 0 {
